@@ -56,6 +56,10 @@ def _recase(draw, name):
     return "".join(c.upper() if f else c.lower() for c, f in zip(name, flips))
 
 
+LOOKALIKES = ["scan_nr", "Exp_Mass", "file_name", "rettime", "spec_id", "calc_mass", "_Label", "Peptide_", "proteins2", "ScanNr.1",
+              "spec-id", "label2", "mod_peptide", "exp mass", "Labels", "xScanNr"]
+
+
 @st.composite
 def _case(draw, tier):
     n = draw(st.integers(3, 40))
@@ -72,6 +76,11 @@ def _case(draw, tier):
     for i in range(nfeat):
         kind = draw(st.sampled_from(["float", "float", "float", "int"]))
         nm = f"feat{i}" if draw(st.integers(0, 9)) else f"Charge{i}"
+        if draw(st.integers(0, 11)) == 0:
+            # a feature whose name merely resembles a reserved one (other spelling, separator, affix): still a feature
+            la = draw(st.sampled_from(LOOKALIKES))
+            if la not in [f["name"] for f in feats]:
+                nm = la
         feats.append({"name": nm, "kind": kind})
     ncols = len(names) + nfeat
     order = draw(st.permutations(list(range(ncols)))) if draw(st.booleans()) else list(range(ncols))
